@@ -406,4 +406,26 @@ def run_case(ctx, case):
                 o.viol("read|component", "component %d differs after the round trip" % i)
     if r.bf3file.comments != dict(comments):
         o.viol("read|comments", "comments differ")
+    if o.viols or path:
+        return o
+    # the SAME file object written a second time - with another session key and other key material in the caller's list: the second
+    # file is a file in its own right (nothing of the first write may be remembered)
+    key2 = ctx.sym("c02-rewrite-key")
+    ckey2 = ctx.sym("c02-rewrite-ckey")
+    scalar2 = FX.ecc_scalar(ctx, 9)
+    bec.session_key = key2
+    objs2 = {"cust": SoftwareCustKeyEncryptor(ckey2, custkey, 0 if custkey else None), "ecc": EccDecryptor(sel, FX.priv_key(scalar2)),
+             "upd": ConfigSecurityCodeEncryptor(code)}
+    s2 = io.StringIO()
+    try:
+        with DetRandom("c02-rewrite-%r" % (case,)):
+            bec.write_file(s2, [objs2["cust"], objs2["ecc"]])
+        rr = Bec2File.read_file(io.StringIO(s2.getvalue()), [objs2[n] for n in decs])
+    except Exception as e:
+        o.cls = "read-raises"
+        return o.viol("rewrite|raises|%s" % type(e).__name__, "writing the same file object again with another session key and other "
+                      "encryptors, then reading it with the matching decryptors, raised %r" % e)
+    if rr.session_key != key2 or FX.view(rr.bf3file) != FX.view(r.bf3file):
+        o.cls = "differs"
+        o.viol("rewrite|differs", "the second write of the same file object (other session key, other encryptors) does not read back to that key and the same content")
     return o
